@@ -1393,7 +1393,10 @@ func (s *Sim) finalPhase() {
 	// "... membership changes and snapshot requests submitted afterwards
 	// complete": one of each is submitted now and repeated (through another
 	// replica) until it completes
-	if !s.fairRounds(budget, s.finalAdminDone) {
+	// (a membership request of the fault phase that has not reached its deadline
+	// yet occupies the replica's only slot - ErrSystemBusy - for up to the
+	// request timeout: that much is added to the budget of this stage)
+	if !s.fairRounds(budget+int(s.cfg.TimeoutTicks)*2+200, s.finalAdminDone) {
 		if !s.ctx.Violated() {
 			what := ""
 			if !s.finalCCDone {
